@@ -17,7 +17,7 @@ MUTANTS = [
     ('c10-addwriter-does-not-set-target', 'C10', P, "        self._write.append(fd)\n        self._targets[fd] = self._write_targets[fd] = channel", "        self._write.append(fd)\n        self._targets.setdefault(fd, self.parent)"),
     ('c10-revert-target-follows-remaining-role', 'C10', P, "            if fd in self._read and fd in self._read_targets:\n                self._targets[fd] = self._read_targets[fd]", "            pass"),
     ('c10-addwriter-keeps-first-target', 'C10', P, "        self._targets[fd] = self._write_targets[fd] = channel", "        self._write_targets[fd] = channel\n        self._targets.setdefault(fd, channel)"),
-    ('c10-removereader-deletes-target-while-writer', 'C10', P, "            self._read.remove(fd)\n        if not (fd in self._read or fd in self._write) and fd in self._targets:", "            self._read.remove(fd)\n        if fd in self._targets:"),
+    ('c10-removereader-deletes-target-while-writer', 'C10', P, "                self._targets[fd] = self._write_targets[fd]\n        if not (fd in self._read or fd in self._write) and fd in self._targets:", "                self._targets[fd] = self._write_targets[fd]\n        if fd in self._targets:"),
     ('c10-gettarget-always-parent', 'C10', P, "        return self._targets.get(fd, self.parent)", "        return self.parent"),
     # discard
     ('c10-discard-keeps-writer', 'C10', P, "    def discard(self, fd):\n        if fd in self._read:\n            self._read.remove(fd)\n        if fd in self._write:\n            self._write.remove(fd)\n", "    def discard(self, fd):\n        if fd in self._read:\n            self._read.remove(fd)\n"),
